@@ -92,11 +92,11 @@ CHECKS = {
             "Every sequence of up to 3 (thorough 4) parallel groups from 9 shapes x instruction limits x size limits x payer-change flag x lookup table: after add+optimize the labelled instructions are neither dropped, duplicated nor reordered, atomic groups unsplit, merges only between mergeable groups, payer rule kept, limits respected and the size estimate is not below the bincode size of the built transaction.",
             "shapes and limits listed in the evidence", "§5 C41"),
     "C22": ("mc-store", MC, "explicit-state BFS (E3) over real store instructions in the in-process runtime, invariant after every successful instruction",
-            "Two machines. (1) All interleavings to the stated depth of create/execute/close of deposits and withdrawals by owners, the keeper and a stranger, fee claims and keeper transfers, clock advances and feed re-publication over two markets sharing both vaults, also from fabricated position-like start states. (2) Real position orders (prepare/create/execute/close of market increase and decrease orders of two traders on both markets), liquidations (also insolvent), fee claims, four price sets and clock advances. After every successful instruction each market's recorded balances cover liquidity+impact+fees and collateral, the collateral-sum and open-interest pools equal the sums over the position accounts, and the markets sharing a vault do not record more than it holds.",
-            "svm-lite runtime trusted; swap orders, shifts and ADL are not in the action alphabet", "§10 C22"),
+            "Two machines. (1) All interleavings to the stated depth of create/execute/close of deposits and withdrawals by owners, the keeper and a stranger, fee claims and keeper transfers, clock advances and feed re-publication over two markets sharing both vaults, also from fabricated position-like start states. (2) Real position orders (prepare/create/execute/close of market increase and decrease orders of two traders on both markets), market swap orders, shifts between the markets, liquidations (solvent and insolvent), fee claims, price sets and clock advances, from the empty world and from a state with both traders' positions open. After every successful instruction each market's recorded balances cover liquidity+impact+fees and collateral, the collateral-sum and open-interest pools equal the sums over the position accounts, and the markets sharing a vault do not record more than it holds.",
+            "svm-lite runtime trusted; ADL and GLV actions are not in this alphabet (C09 program part, C45)", "§10 C22"),
     "C23": ("mc-store", MC, "explicit-state BFS (E3) over real store instructions in the in-process runtime against the action-lifecycle protocol",
-            "Same two explorations as C22 with the full actor alphabet (owner, keeper, stranger): the action-state transition relation (Pending->Completed/Cancelled exactly once, terminal absorbing) for deposits, withdrawals and position orders, who may execute/close/liquidate in which state, escrow contents returned on close (input funds to the owner, outputs to the receiver, also when they differ), consumed escrow on completion, execution-fee and rent refunds, and untouched markets/vaults/positions/escrow after a cancelled execution (unreachable minimum output, unacceptable price, expired request) are checked on every transition.",
-            "shifts are not explored; GLV actions are executed in C45 but not under this relation", "§10 C23"),
+            "Same two explorations as C22 with the full actor alphabet (owner, keeper, stranger) plus a third machine for GLV deposits and withdrawals: the action-state transition relation (Pending->Completed/Cancelled exactly once, terminal absorbing) for deposits, withdrawals, shifts, position and swap orders and GLV actions, who may execute/close/liquidate in which state, escrow contents returned on close (input funds to the owner, outputs to the receiver, also when they differ), consumed escrow on completion, execution-fee and rent refunds, and untouched markets/vaults/positions/escrow after a cancelled execution (unreachable minimum output, unacceptable price, expired request) are checked on every transition.",
+            "ADL orders and GLV shifts are not under this relation", "§10 C23"),
     "C24": ("mc-store", E1, "exhaustive product enumeration (E1) of the real PriceValidator/SmallPrices against the statement in i128, plus exhaustive enumeration of feed-kind pairs through the real execute_deposit instruction",
             "Age/future rules over boundary clocks, timestamps, adjustments, max ages and future excesses at the i64/u64 limits; deviation rule and well-formedness through the validate_one + SmallPrices::from_price pipeline over dense prices, references, factors and multipliers; timestamp-range rule over pairs/triples of validated timestamps. Instruction level: execute_deposit over all pairs of eight feed kinds (good, stale, future, far from the other feed, wrong provider, wrong feed id, inverted, zero) x three operation kinds: executed only with two good feeds; the oracle account as left in memory on return (also of failed, uncommitted instructions) is byte-identical to a cleared oracle.",
             "svm-lite runtime trusted; Chainlink/Pyth feed parsing is C26/C28", "§10 C24"),
